@@ -15,27 +15,30 @@ func init() {
 	register(&Property{
 		ID:         "C24",
 		Level:      "other",
-		Technique:  "SSA width-provenance dataflow (ParseFloat width → float32 narrowing) + kind-context table conformance (static)",
-		Explain:    "Decides structural necessary conditions of the prototext round trip: (1) no float32 field value is produced by parsing the decimal at width 64 and narrowing (double rounding breaks bit-for-bit round trip of floats); (2) in every Kind-dependent branch of the text encoder/decoder the token accessors, Value accessors/constructors and bitSize constants agree with the Kind per the protobuf scalar table.",
+		Technique:  "SSA width-provenance dataflow (ParseFloat width → float32 narrowing) + kind-context table conformance + resolver-propagation rule over options literals (static)",
+		Explain:    "Decides structural necessary conditions of the prototext round trip: (1) no float32 field value is produced by parsing the decimal at width 64 and narrowing (double rounding breaks bit-for-bit round trip of floats); (2) in every Kind-dependent branch of the text encoder/decoder the token accessors, Value accessors/constructors and bitSize constants agree with the Kind per the protobuf scalar table; (3) the codec uses one resolver throughout: the global registry only as the default of a nil Resolver option, and the wire decoding of Any.value for expansion forwards the codec's Resolver (else extensions known only to that resolver are dropped from an expanded Any); (4) a bracketed name written from message content (the type URL of an expanded Any) is first validated by running the text reader on it, so the writer never emits a name outside the reader's grammar; bracketed names from descriptors need no guard.",
 		NotCovered: "the round trip on concrete values, extensions/groups/Any expansion, and whitespace/indent options; only the listed structural clauses are decided.",
 		Quick:      all("./encoding/prototext"),
 		Thorough:   all("./..."),
 		Run: func(c *Ctx) {
 			c.ruleFloatBits("R-FLOATBITS", inPkgs("internal/encoding/text", "encoding/prototext"), 1)
 			c.ruleKindContext("R-KIND-CONTEXT", []string{"encoding/prototext", "internal/encoding/text"}, 20)
+			c.ruleResolverProp("R-RESOLVER-PROP", []string{"encoding/prototext"}, 3)
+			c.ruleNameGrammar("R-NAME-GRAMMAR", 1)
 		},
 	})
 	register(&Property{
 		ID:         "C39",
 		Level:      "other",
-		Technique:  "SSA width-provenance dataflow + kind-context table conformance (static)",
-		Explain:    "Decides structural necessary conditions of default-value round trip: (1) a FloatKind default is never parsed at width 64 and narrowed (double rounding); (2) in every Kind-dependent branch of defval.Marshal/Unmarshal the parse/format width constants and Value constructors/accessors agree with the Kind.",
-		NotCovered: "C-escape round trip of bytes defaults and enum lookup; value-level equality.",
+		Technique:  "SSA width-provenance dataflow + kind-context table conformance + finite case analysis of the bytes escaper over all byte values (static)",
+		Explain:    "Decides structural necessary conditions of default-value round trip: (1) a FloatKind default is never parsed at width 64 and narrowed (double rounding); (2) in every Kind-dependent branch of defval.Marshal/Unmarshal the parse/format width constants and Value constructors/accessors agree with the Kind; (3) for every byte value 0..255 (finite case analysis of marshalBytes) a bytes default is written raw only if printable and not a quote/backslash, as a C escape whose letter denotes the byte, or as a numeric escape of the fixed maximal width the text-format reader consumes, so the greedy reader recovers the byte whatever follows.",
+		NotCovered: "the text-format reader side of the bytes escape (decided under C25), enum lookup; value-level equality.",
 		Quick:      all("./internal/encoding/defval"),
 		Thorough:   all("./..."),
 		Run: func(c *Ctx) {
 			c.ruleFloatBits("R-FLOATBITS", inPkgs("internal/encoding/defval", "internal/filedesc", "reflect/protodesc"), 1)
 			c.ruleKindContext("R-KIND-CONTEXT", []string{"internal/encoding/defval"}, 10)
+			c.ruleDefvalBytesEscape("R-DEFVAL-BYTES-ESCAPE")
 		},
 	})
 }
